@@ -44,7 +44,13 @@
                 point; with at most mu starting points every one of them is in the population (doInit: "fill everything in");
                 a list with an infeasible point is either rejected by a library exception or handled within the monitors;
                 the internal parents carry (penalized, unpenalized) = (f(x), f(x)) of their own search point and solution() is
-                (search point, unpenalized fitness) of the parents.  Keys init:<alg>:<shape>:...
+                (search point, unpenalized fitness) of the parents; ranks after init = rank definition.  Keys init:<alg>:<shape>:...
+                TIE: the implementation runs first; the harness replays random::discrete on a copy of the generator (D line); the
+                indices are handed to the extracted C14Init model (init_parents / ssmocma_init / rvea_init over opaque point and value
+                tokens, f = the harness's own evaluation of the starting points): model parents = m_parents and model solution =
+                solution(), exactly and in order (SteadyStateMOCMA: including sortRankOneToFront), for all nine configurations and all
+                regimes.  If the reported parents do not belong to the generator's indices, indices are recovered from the output alone
+                (points carry unique first coordinates) and the difference is reported (key correspondence-init).
   stream F8   : HypervolumeIndicator WITHOUT reference point (separate stream, stable key
                 contribution:no-reference-k-too-large)."""
 import os, sys, re, math, itertools
@@ -782,6 +788,7 @@ def parse_O(text):
                 if l.startswith("PTS "): els.append(([float(a) for a in z[0].split(",")], [float(a) for a in z[1].split(",")], z[2] == "1"))
                 else: els.append(([float(a) for a in z[0].split(",")], [float(a) for a in z[1].split(",")], [float(a) for a in z[2].split(",")], int(z[3])))
             cur[1]["pts" if l.startswith("PTS ") else "parents"] = els
+        elif l.startswith("D") and (l == "D" or l.startswith("D ")) and cur is not None: cur[1]["draws"] = [int(a) for a in l.split()[1:]]
         elif l.startswith("RESTORE") and cur is not None: cur[2].append("RESTORE")
         elif l.startswith("END") and cur is not None: cur[3] = "END"
         elif (l.startswith("EXC") or l.startswith("STDEXC")) and cur is not None: cur[3] = l
@@ -878,8 +885,8 @@ def gen_N(rng, big):
     cases = []
     fns2 = ["ZDT1", "ZDT2", "ZDT3", "ZDT6", "DTLZ2", "DTLZ1"]; fns3 = ["DTLZ2", "DTLZ1", "DTLZ4", "DTLZ7"]
     for alg in N_ALGS:
-        for rep in range(3 if big else 1):
-            nobj = rng.choice([2, 3]); fn = rng.choice(fns2 if nobj == 2 else fns3); nvar = rng.randint(nobj + 1, 6)
+        for rep in range(4 if big else 2):
+            nobj = 2 + rep % 2; fn = rng.choice(fns2 if nobj == 2 else fns3); nvar = rng.randint(nobj + 1, 6)
             mu = rng.choice([4, 5, 6, 7, 9] if alg not in ("MOEAD", "RVEA", "NSGA3") else [4, 6, 10]) + (rng.choice([0, 6, 11]) if big else 0)
             eff = rvea_mu(nobj, mu) if alg == "RVEA" else mu
             steps = 10 if (alg in STEADY_HV or alg == "MOEAD") else 3
@@ -909,6 +916,86 @@ def n_shape(case, hdr):
     if n and len(set(tuple(p[0]) for p in pts)) < len(pts): shape += "+duplicates"
     if any(not p[2] for p in pts): shape += "+outside-box"
     return shape
+
+# the tie of stream N: C14Init.v next to init(function, startingPoints)
+def ss_sort_py(l, flag):
+    """sortRankOneToFront, statement by statement (independent of the Coq model)"""
+    l = list(l)
+    if not l: return l
+    start, end = 0, len(l) - 1
+    while start != end:
+        if flag(l[start]): start += 1
+        elif not flag(l[end]): end -= 1
+        else: l[start], l[end] = l[end], l[start]
+    return l
+
+def ss_unsort(post, flag, P, np_):
+    """an arrangement `pre` of the reported SteadyStateMOCMA population with pre[:np_] = P[:np_] that sortRankOneToFront turns into
+    the reported one (None if there is none).  The sort swaps the i-th misplaced non-rank-1 individual from the left with the i-th
+    misplaced rank-1 individual from the right; the left ones inside the fixed prefix are known, their partners are searched from
+    the right.  The result is verified by running the sort."""
+    n = len(post); r = sum(1 for x in post if flag(x))
+    if any(not flag(x) for x in post[:r]): return None
+    L = [j for j in range(min(np_, r)) if not flag(P[j])]
+    Rp = [j for j in range(r, np_) if flag(P[j])]
+    b = len(L) - len(Rp)
+    if b < 0: return None
+    R = []; hi = n
+    for i in range(b):
+        cand = [pos for pos in range(max(np_, r), hi) if post[pos] == P[L[i]]]
+        if not cand: return None
+        R.append(cand[-1]); hi = cand[-1]
+    R += Rp[::-1]
+    pre = list(post)
+    for a, c in zip(L, R): pre[a], pre[c] = pre[c], pre[a]
+    if pre[:np_] != list(P[:np_]) or ss_sort_py(pre, flag) != list(post): return None
+    return pre
+
+def ftok(v):
+    return ",".join(repr(float(a)) for a in v)
+
+def n_model_line(case, hdr):
+    """-> (model case line or None, note).  The random indices: the harness replays the generator (D line); if the parents the
+    model's statements build from these indices are the reported ones, they are the oracle.  Otherwise the indices are recovered from
+    the reported parents alone (slot i >= numPoints holds the starting point with index oracle[i - numPoints]; first index of an
+    equal point) and the note says that the population does not belong to the generator's stream."""
+    t = case.split(); alg = t[1]; pts = hdr["pts"]; par = hdr["parents"]; mu = hdr["mu"]
+    P = [tuple(x) for x, w, feas in pts]; n = len(P); np_ = n if n <= mu else 0
+    post = [tuple(x) for (x, pen, unp, rank) in par]
+    flags = {}
+    for (x, pen, unp, rank) in par:
+        if flags.setdefault(tuple(x), rank == 1) != (rank == 1): return None, "equal individuals carry different ranks"
+    flag = lambda x: flags.get(x, False)
+    D = hdr.get("draws"); oracle = None; note = None
+    if D is not None and len(D) == mu - np_ and all(0 <= d < n for d in D):
+        pre = list(P[:np_]) + [P[d] for d in D]
+        if (ss_sort_py(pre, flag) if alg == "SSMOCMA" else pre) == post: oracle = D
+    if oracle is None:
+        note = "draws"
+        pre = ss_unsort(post, flag, P, np_) if alg == "SSMOCMA" else post
+        if pre is None: return None, "no arrangement of the reported parents starts with the %d starting points and is turned into the reported order by sortRankOneToFront" % np_
+        first = {}
+        for i, x in enumerate(P): first.setdefault(x, i)
+        if any(x not in first for x in pre[np_:]): return None, "a parent is not a starting point"
+        oracle = [first[x] for x in pre[np_:]]
+    vals = {}
+    for x, w, feas in pts: vals.setdefault(tuple(x), w)
+    return "N %s %s %s %d %s %s %s | %s" % (alg, t[3], t[5], n, " ".join(ftok(x) for x in P), " ".join(ftok(vals[x]) for x in P),
+                                          " ".join("1" if (alg == "SSMOCMA" and flag(x)) else "0" for x in P), " ".join(map(str, oracle))), note
+
+def n_compare(hdr, gens, mout):
+    """model population / solution vs the reported ones, exactly and in order -> list of differing fields"""
+    o = kv(mout)
+    if "pop" not in o: return ["model output: " + mout[:60]]
+    fl = lambda s: [float(a) for a in s.split(",")]
+    mpop = [tuple(fl(z) for z in e.split(":")) for e in o["pop"].split(";")] if o["pop"] else []
+    msol = [tuple(fl(z) for z in e.split(":")) for e in o["sol"].split(";")] if o["sol"] else []
+    d = []
+    if mpop != [(x, pen, unp) for (x, pen, unp, rank) in hdr["parents"]]: d.append("parents")
+    if msol != [(x, v) for (x, v, w, feas) in gens[0][2]]: d.append("solution")
+    if int(o["mu"]) != hdr["mu"]: d.append("mu")
+    if o["ok"] != "1": d.append("oracle_ok")
+    return d
 
 def monitor_N(case, hdr, gens, status):
     """-> (violations[str], notes).  The per-generation monitors of stream O plus the statements about the state after init."""
@@ -952,6 +1039,11 @@ def monitor_N(case, hdr, gens, status):
             bad.append("after %s, mu = %d: parent %d at %s carries (penalized, unpenalized) = (%s, %s), the objective vector of its search point is %s" % (call, mu, k, x, pen, unp, w)); break
     if not bad and [(x, v) for (x, v, w, feas) in g0] != [(x, unp) for (x, pen, unp, rank) in par]:
         bad.append("after %s, mu = %d: solution() is not (search point, unpenalized fitness) of the parents in their order" % (call, mu))
+    if not bad and alg in ("SSMOCMA", "SMSEMOA", "NSGA2", "NSGA2C", "NSGA2E", "NSGA3"):      # doInit runs the selection: ranks as defined
+        want = py_ranks([pen for (x, pen, unp, rank) in par]); got = [rank for (x, pen, unp, rank) in par]
+        if got != want: bad.append("after %s, mu = %d: the parents carry the ranks %s, the rank definition gives %s" % (call, mu, got, want))
+        elif alg == "SSMOCMA" and any(a != 1 and b == 1 for a, b in zip(got, got[1:])):
+            bad.append("after %s, mu = %d: rank-1 parents are not sorted to the front (ranks %s)" % (call, mu, got))
     return bad, notes
 
 # ------------------------------------------------------------------------------------------------
@@ -1003,6 +1095,7 @@ def main():
         "std::pow / std::abs / sqrt of the C library = OCaml's ( ** ) / abs_float / sqrt (same libm) in the float instances of the models; the theorems hold for arbitrary functions in their place",
         "one canonical uniform draw per random::coinToss / random::uni call (libstdc++ bernoulli_distribution / uniform_real_distribution over generate_canonical); random::discrete is modelled by its results",
         "the rank definition / hv_spec and their lemmas come from C13Model.v / C13Proofs.v",
+        "stream N: the objective vector of a starting point is the harness's own evaluation through /repo's benchmark object (table handed to the model as f); the random indices of doInit are the results of random::discrete on a copy of the generator taken when init(function, points) is entered (MOEAD: after the same sampleLatticeUniformly call); init(function) = numInitPoints() calls of proposeStartingPoint + init(function, points) (reconstructed by the harness with the same seed)",
         "benchmark functions ZDT/DTLZ and BoxConstraintHandler::closestFeasible are re-evaluated through /repo's own objects in the harness; ZDT1, ZDT2, DTLZ2 additionally by an independent Python implementation (1e-9)"]
     ck.assumptions = [
         "1 <= mu <= population size (mu = 0 does not terminate, mu > n underflows in the C++; outside the property)",
@@ -1014,6 +1107,7 @@ def main():
         "the in-box theorems of the variation operators are over Q (division an arbitrary function); NaN/overflow of the double evaluation is outside them and is covered by the run-time monitor (every child coordinate printed by the C++ is a finite number in [lower, upper] when the parents are inside the box)",
         "NSGA3Indicator / MOEAD / RVEA are exercised with mu >= number of objectives only: sampleLatticeUniformly(keep_corners) writes all corner rows into an n-row matrix (heap overflow for n < #objectives, seen under ASan); reported to the lead, not part of the stream",
         "tournament-based optimisers (SMS-EMOA, NSGA-II/III, RVEA) need mu > tournament size 2 (library exception otherwise)",
+        "initialisation: a non-empty list of starting points (SIZE_CHECK only: an empty list is undefined behaviour under NDEBUG); a list containing a point outside the box is rejected by every init() with a library exception -- counted in init_lists_with_infeasible_point_rejected_by_exception; with more than mu starting points the code draws mu random copies with replacement (it does not take the first mu points, distinct points may be dropped): stated as a theorem, not judged",
         "HypervolumeIndicator without reference point inside the optimisers: when the split front has fewer than k non-extreme points the extreme points are discarded last (since /repo commit 1a2ef572; before, the request was answered with garbage resp. rejected)"]
     ck.proofs()
     model = extract_model(PID, "C14Extract.v", "c14_driver.ml")
@@ -1183,7 +1277,7 @@ def main():
     if not ck.replay: n_lines += gen_N(ck.rng, big)
     if n_lines:
         nres = run_O(ck, n_lines, moo, tmpd, label="N")
-        nbad = 0; nkeys = set(); ncover = {}; nrej = 0
+        nbad = 0; nkeys = set(); ncover = {}; nrej = 0; tie = []
         for (case, hdr, gens, status) in nres:
             alg = case.split()[1]; shape = n_shape(case, hdr)
             bad, notes = monitor_N(case, hdr, gens, status)
@@ -1191,6 +1285,7 @@ def main():
             if notes.get("rejected"): nrej += 1
             if not bad:
                 ncover.setdefault(alg, {}); ncover[alg][shape] = ncover[alg].get(shape, 0) + 1
+                if status == "END": tie.append((case, hdr, gens))
                 continue
             if "REPORTED unpenalized" in bad[0] and ck.match_known("steady-state:reported-hv-decreases-by-penalty"):
                 ck.violation("steady-state:reported-hv-decreases-by-penalty", {"case": case, "monitor": bad[:5]}, bad[0]); continue
@@ -1207,6 +1302,36 @@ def main():
             cf = ck.write_replay("N_case_%d.txt" % len(nkeys), small + "\n")
             ck.violation(key, {"case_file": cf, "case": small, "shape": shape, "monitor": bad[:5], "replay_cmd": "python3 tools/c14.py --replay " + cf},
                          "spec monitor fails on the implementation: `%s`: %s" % (small[:120], bad[0]))
+        # the tie: the implementation ran first; the random indices are read back from its parents and handed to C14Init
+        ndis = []; nmodelled = 0
+        if tie:
+            ml = [n_model_line(c, h) for (c, h, g) in tie]
+            rc, mo, err = run_lines(model, [l for l, why in ml if l], os.path.join(tmpd, "N_model.txt"))
+            if rc != 0 or len(mo) != sum(1 for l, why in ml if l): raise RuntimeError("model driver failed: " + err[-1000:])
+            it = iter(mo)
+            for (c, h, g), (l, why) in zip(tie, ml):
+                if l is None: ndis.append((c, l, "", [why])); continue
+                m = next(it); nmodelled += 1
+                d = n_compare(h, g, m)
+                if why == "draws":      # a legal outcome of the modelled statements for SOME random indices, not for the ones the generator delivered
+                    d.append("random indices: the generator delivers %s to the random::discrete calls of doInit, the reported parents are the starting points %s"
+                             % (h.get("draws"), l.split("|")[1].split()))
+                if d: ndis.append((c, l, m, d))
+        if ndis and nbad == 0:
+            c, l, m, d = ndis[0]
+            cf = ck.write_replay("N_dis.txt", c + "\n")
+            ck.violation("correspondence-init", {"case_file": cf, "case": c, "model_case": l, "model_output": m, "differing": d,
+                                                 "broken": "correspondence C14Init (init_parents / ssmocma_init / rvea_init, init_solution) vs init(function, startingPoints) + doInit",
+                                                 "replay_cmd": "python3 tools/c14.py --replay " + cf},
+                         "correspondence initialisation model vs %s::init no longer checks (%d of %d runs differ in %s, e.g. `%s`); the spec monitor passes on every explored input"
+                         % (c.split()[1], len(ndis), len(tie), d, c[:100]), no_input=True)
+        ck.oblige("correspondence C14Init.init_parents / ssmocma_init / rvea_init + init_solution = parents and solution() after init(function, startingPoints) / init(function) (random indices read back) on %d initialisations" % nmodelled,
+                  not ndis, "%d disagreements" % len(ndis) if ndis else "")
+        ck.notes["init_runs_modelled"] = nmodelled
+        ck.notes["init_runs_steady_state_mocma_where_sortRankOneToFront_moved_parents"] = sum(
+            1 for (c, h, g), (l, why) in zip(tie, ml) if l and c.split()[1] == "SSMOCMA" and
+            [tuple(x) for x, w, fe in h["pts"]][:(len(h["pts"]) if len(h["pts"]) <= h["mu"] else 0)] !=
+            [tuple(p[0]) for p in h["parents"]][:(len(h["pts"]) if len(h["pts"]) <= h["mu"] else 0)]) if tie else 0
         ck.oblige("initialisation monitors (size, value = objective at the reported point, box; after init: points from the starting list, values of their own point, all points kept when <= mu) on %d runs started through init(function, startingPoints) / init(function)" % len(n_lines), nbad == 0)
         if not ck.replay:
             missing = ["%s/%s" % (a, r) for a in N_ALGS for r in N_REGIMES + ["fewer-than-mu+duplicates", "exactly-mu+duplicates", "more-than-mu+duplicates"]
@@ -1255,7 +1380,9 @@ def main():
                      "generations_per_algorithm": per_alg, "hv_decrease_noref": noref_dec})
     ck.finish(explanation="selection theorems hold for any valid indicator; the coded indicators (epsilon, hypervolume 2-D, crowding distance, NSGA-III), the variation operators "
                           "and updatePopulation are modelled as coded, proved, and run next to the C++ on every check (streams I, V, U, field mown of S); "
-                          "hypervolume monotonicity is proved for the coded 2-objective HypervolumeIndicator path under the reference-point assumption and monitored on SMS-EMOA / steady-state MO-CMA")
+                          "hypervolume monotonicity is proved for the coded 2-objective HypervolumeIndicator path under the reference-point assumption and monitored on SMS-EMOA / steady-state MO-CMA; "
+                          "initialisation from caller-supplied starting points (fewer / as many / more than mu, duplicates, outside the box, plain init) is modelled as coded (C14Init.v), proved consistent "
+                          "for every list, mu and oracle, and run next to init(function, points) of all seven optimisers with the generator's own indices (stream N)")
 
 if __name__ == "__main__":
     main()
